@@ -127,6 +127,30 @@ if "use minidump_common::utils::basename;" not in nocomment:
     die("process_state.rs no longer imports minidump_common::utils::basename")
 
 
+# ---------------------------------------------------------------- possible_bit_flips[].confidence: which float goes through serde
+# C15/Float.v models Value::from(f32): the binary32 is widened to binary64 and printed by ryu.  That is only what happens while the field is an
+# `Option<f32>` of a struct with a DERIVED Serialize, without a serde attribute of its own, handed to json! as it is.
+sm = re.search(r"#\[derive\(([^)]*)\)\]\s*pub struct PossibleBitFlip \{(.*?)\n\}", nocomment, re.S)
+if not sm:
+    die("struct PossibleBitFlip (with its derive list) not found")
+if "Serialize" not in [d.strip().split("::")[-1] for d in sm.group(1).split(",")]:
+    die("PossibleBitFlip no longer derives Serialize: how possible_bit_flips is written is not modelled")
+fields = re.findall(r"((?:\s*#\[[^\]]*\])*)\s*pub (\w+): ([^,\n]+),", sm.group(2))
+conf = [(attrs, ty.strip()) for attrs, name, ty in fields if name == "confidence"]
+if len(conf) != 1:
+    die("PossibleBitFlip: expected exactly one field `confidence`, got %r" % (conf,))
+if conf[0][0].strip():
+    die("PossibleBitFlip.confidence carries an attribute (%s): its serialisation is not the derived one the model renders" % squash(conf[0][0]))
+cm2 = re.match(r"^Option<f(32|64)>$", conf[0][1])
+if not cm2:
+    die("PossibleBitFlip.confidence has type %r, expected Option<f32>" % conf[0][1])
+confidence_bits = int(cm2.group(1))
+if [name for _, name, _ in fields] != ["address", "source_register", "details", "confidence"]:
+    die("PossibleBitFlip fields changed: %r" % ([name for _, name, _ in fields],))
+if not re.search(r'"possible_bit_flips": self\.exception_info\.as_ref\(\)\.and_then\(\|info\| \{\s*\(!info\.possible_bit_flips\.is_empty\(\)\)\.then_some\(&info\.possible_bit_flips\)\s*\}\),', nocomment):
+    die("print_json no longer hands `&info.possible_bit_flips` (non-empty) to json! as it is")
+
+
 def coqstr(s):
     return "[" + ";".join(str(ord(c)) for c in s) + "]"
 
@@ -142,7 +166,9 @@ out = ("(* GENERATED by translate/c15_fmt.py from minidump-processor/src/process
        "Definition LIMIT_ARMS : list (Z * option (list Z)) :=\n  [" +
        "; ".join("(%d, %s)" % (v, "None" if t is None else "Some %s (* %s *)" % (coqstr(t), t)) for v, t in lim_arms) + "].\n\n"
        "(* minidump_common::utils::basename: the characters f.rfind([...]) looks for; the result is the text after the last of them *)\n"
-       "Definition BASENAME_SEPARATORS : list Z := [" + "; ".join(str(c) for c in seps) + "].\n")
+       "Definition BASENAME_SEPARATORS : list Z := [" + "; ".join(str(c) for c in seps) + "].\n\n"
+       "(* PossibleBitFlip.confidence is an Option<fN> serialised by the derived Serialize (no attribute), handed to json! as it is: N *)\n"
+       "Definition CONFIDENCE_FLOAT_BITS : Z := %d.\n" % confidence_bits)
 path = os.path.join(outdir, "C15Fmt.v")
 os.makedirs(outdir, exist_ok=True)
 try:
